@@ -79,6 +79,7 @@ var (
 	fSeed    = flag.Uint64("seed", 1, "VERIF_SEED")
 	fCorrupt = flag.Int("corrupt", 200, "number of seeded corruptions in the pool")
 	fChurn   = flag.Int("churn", 200, "number of identifier-churn inputs in the pool")
+	fLarge   = flag.Int("large", 8, "number of large / deeply nested inputs in the pool")
 	fW       = flag.Int("w", 0, "worker index")
 	fOf      = flag.Int("of", 1, "number of workers")
 	fFrom    = flag.Int64("from", 0, "first run index (work: index = from + w + k*of)")
@@ -146,7 +147,7 @@ func setupPool() error {
 	if *fRoot == "" {
 		return fmt.Errorf("need -root")
 	}
-	return buildPool(*fRoot, *fSeed, *fCorrupt, *fChurn)
+	return buildPool(*fRoot, *fSeed, *fCorrupt, *fChurn, *fLarge)
 }
 
 func setupRefs() (*refTable, error) {
@@ -242,6 +243,7 @@ func modeRefMerge() error {
 	for i, e := range t.e {
 		all[i] = e
 	}
+	siteOpCount = t.siteOps // the merged statistics travel with the merged table
 	if err := writeRefPart(*fOut+".table", all, 0, 1, false); err != nil {
 		return err
 	}
@@ -740,7 +742,37 @@ func modePreempt() error {
 			pts[int64(i)+2] = true
 		}
 		n := int64(len(tr)) + 2
-		if extra := int64(*fCap) - int64(len(pts)); extra > 0 {
+		// bound the work per A: an operation of a million yields gets a sample of its sites -
+		// half of it the *rarest* sites (executed by the fewest operations of the pool: size
+		// thresholds, error paths, special cases), half of it random
+		if maxPts := int(4_000_000/n) + 16; len(pts) > maxPts {
+			type cand struct {
+				p    int64
+				rare uint32
+			}
+			var cs []cand
+			for p := range pts {
+				rare := uint32(1 << 30)
+				if i := int(p - 2); i >= 0 && i < len(tr) && int(tr[i]) < len(refs.siteOps) {
+					rare = refs.siteOps[tr[i]]
+				}
+				cs = append(cs, cand{p, rare})
+			}
+			sort.Slice(cs, func(i, j int) bool {
+				if cs[i].rare != cs[j].rare {
+					return cs[i].rare < cs[j].rare
+				}
+				return cs[i].p < cs[j].p
+			})
+			pts = map[int64]bool{}
+			for i := 0; i < maxPts/2 && i < len(cs); i++ {
+				pts[cs[i].p] = true
+			}
+			for len(pts) < maxPts {
+				pts[cs[r.intn(len(cs))].p] = true
+			}
+		}
+		if extra := int64(*fCap) - int64(len(pts)); extra > 0 && n < 100_000 {
 			stride := n/extra + 1
 			for i := int64(1); i <= n; i += stride {
 				pts[i] = true
@@ -958,7 +990,7 @@ func replayPrefix(rf *ReplayFile) error {
 	if *fRoot == "" {
 		return fmt.Errorf("a seeded-prefix replay needs -root")
 	}
-	if err := buildPool(*fRoot, p.Seed, p.Corrupt, p.Churn); err != nil {
+	if err := buildPool(*fRoot, p.Seed, p.Corrupt, p.Churn, p.Large); err != nil {
 		return err
 	}
 	n := 0
